@@ -59,6 +59,7 @@ func (check) Assumptions() []string {
 		"'could still write' excludes faults on the initial Get of the BindRequest and on the BindRequest status patch itself",
 		"a reconcile of an already bound pod may write the BindRequest status and the pod's PodBound condition (reporting); anything else is not a no-op",
 		"event recording is not an API call of the reconcile (asynchronous broadcaster in production)",
+		"the binder syncs the GPU groups of a node in Go map order, so the call at index k of a faulty run can be a different call than at index k of the fault-free run; every index 1..N is still hit, and signatures name the call that was actually hit",
 	}
 }
 
@@ -177,7 +178,7 @@ func (c *caseRun) runPlan(pl plan) ([]callRec, error) {
 	// ---- clean-up probe: a failed attempt whose request the scheduler simply withdraws must leave nothing that
 	// the binder's own clean-up (rollback, delete handler, next Sync) does not remove
 	if !bound && !crashed && mode != "none" && br1.Status.Phase == schedulingv1alpha2.BindRequestPhaseFailed {
-		if err := c.cleanupProbe(w, s1, rep); err != nil {
+		if err := c.cleanupProbe(w, s1, kinds, rep); err != nil {
 			return att.Log, err
 		}
 	}
@@ -324,7 +325,7 @@ func phaseName(br *schedulingv1alpha2.BindRequest) string {
 
 // cleanupProbe runs on a copy of the store after a failed attempt: the scheduler withdraws the request (the real
 // delete handler runs), a new binder process starts and runs Sync(). What the attempt added must be gone.
-func (c *caseRun) cleanupProbe(w *world, s1 *snap, rep func(clause, f string, a ...any)) error {
+func (c *caseRun) cleanupProbe(w *world, s1 *snap, kinds []string, rep func(clause, f string, a ...any)) error {
 	cw, err := w.clone()
 	if err != nil {
 		return err
@@ -345,15 +346,25 @@ func (c *caseRun) cleanupProbe(w *world, s1 *snap, rep func(clause, f string, a 
 		rep("cleanup-object-lost", "the pod disappeared")
 		return nil
 	}
+	// a residue whose own clean-up call was one of the injected faults is reported under its own clause: there
+	// the rollback step was hit and is simply never retried; elsewhere the rollback ran unharmed and still left it
+	stepFaulted := func(clause string, steps ...string) string {
+		for _, k := range kinds {
+			if has(steps, k) {
+				return clause + "-rollback-step-faulted"
+			}
+		}
+		return clause
+	}
 	for _, g := range groupLabelsOf(pod) {
 		if !has(groupLabelsOf(ipod), g) {
-			rep("residue-group-label", "unbound pod of a Failed, withdrawn request still carries GPU group %s after rollback + delete handler + Sync(); labels %v (right after the attempt: %v)",
+			rep(stepFaulted("residue-group-label", "patch-pod-remove-gpugroup-labels"), "unbound pod of a Failed, withdrawn request still carries GPU group %s after rollback + delete handler + Sync(); labels %v (right after the attempt: %v)",
 				g, pod.Labels, s1.pods[key(nsT, tgtName)].Labels)
 		}
 	}
 	for _, f := range orphans(s) {
 		if f.Clause == "orphan-reservation-pod" {
-			rep("residue-reservation-pod", "after rollback + delete handler + Sync(): %s", f.Msg)
+			rep(stepFaulted("residue-reservation-pod", "delete-reservation-pod"), "after rollback + delete handler + Sync(): %s", f.Msg)
 		}
 	}
 	for _, k := range sortedKeys(s.claims) {
@@ -370,7 +381,7 @@ func (c *caseRun) cleanupProbe(w *world, s1 *snap, rep func(clause, f string, a 
 	}
 	for _, k := range sortedKeys(s.cms) {
 		if c.init.cms[k] == nil {
-			c.counters["residue_configmap_observed"]++
+			rep(stepFaulted("residue-configmap", "delete-configmap", "delete-configmap-evar"), "config map %s created by the failed attempt is still there after rollback + delete handler + Sync() (data %v); the pod is unbound and has no request", k, s.cms[k].Data)
 		}
 	}
 	return nil
